@@ -304,3 +304,17 @@ func vfParseInto(fset *token.FileSet, src string) (*ast.File, bool) {
 	f, err := parser.ParseFile(fset, "", src, parser.ParseComments)
 	return f, err != nil
 }
+
+func vfHasPosField(node interface{}, p token.Pos) bool {
+	rv := reflect.ValueOf(node)
+	if !rv.IsValid() || rv.Kind() != reflect.Ptr || rv.IsNil() || rv.Elem().Kind() != reflect.Struct {
+		return false
+	}
+	rv = rv.Elem()
+	for i := 0; i < rv.NumField(); i++ {
+		if rv.Field(i).Type() == reflect.TypeOf(token.Pos(0)) && token.Pos(rv.Field(i).Int()) == p {
+			return true
+		}
+	}
+	return false
+}
